@@ -519,6 +519,28 @@ FAMILIES = {
     "Scale": dict(q="Scale", make=lambda M, a: M.Scale(float(a)), label=lambda a: f"k={float(a)},mul",
                   muts={"k": (_m_attr("k"), lambda l, o, a: f"k={float(a)},mul")}),
 }
+
+
+def _digest(*arrays):
+    import hashlib
+    h = hashlib.sha1()
+    for a in arrays:
+        a = np.asarray(a)
+        h.update(str((a.shape, a.dtype)).encode())
+        h.update(a.tobytes())
+    return h.hexdigest()[:16]
+
+
+# the CURRENT state of a callee, read off its decorator-stripped twin (equal label <=> equal state, whatever the
+# sequence of updates that led there)
+STATE_OF = {
+    "ULin": lambda i: _digest(i.l.kernel[...], i.l.bias[...]),
+    "Lin": lambda i: _digest(i.l.kernel[...], i.l.bias[...]),
+    "UMix": lambda i: f"{_digest(i.l.kernel[...], i.l.bias[...])};{i.mode};{float(i.k)}",
+    "DLin": lambda i: _digest(i.w),
+    "PScale": lambda i: f"k={float(i.k)}",
+    "Scale": lambda i: f"k={float(i.k)},{i.mode}",
+}
 E = ["export"]
 
 
@@ -577,7 +599,8 @@ def run_history(ctx, P, Pp, hname, h, nprng, stats, on_export=None):
     fam = FAMILIES[h["family"]]
     inst_d = [fam["make"](P, a) for a in h["init"]]
     inst_p = [fam["make"](Pp, a) for a in h["init"]]
-    labels = [fam["label"](a) for a in h["init"]]
+    state_of = STATE_OF[h["family"]]
+    labels = [state_of(i) for i in inst_p]
     order = list(range(len(inst_d))) + [0]
     k = 0
     for step in h["steps"]:
@@ -586,7 +609,7 @@ def run_history(ctx, P, Pp, hname, h, nprng, stats, on_export=None):
             apply, relabel = fam["muts"][name]
             apply(inst_d[t], None if other is None else inst_d[other], arg)
             apply(inst_p[t], None if other is None else inst_p[other], arg)
-            labels[t] = relabel(labels[t], None if other is None else labels[other], arg)
+            labels = [state_of(i) for i in inst_p]
             continue
         k += 1
 
